@@ -62,6 +62,17 @@ Proof.
     simpl in *. apply (unrank_injective dims); [lia|exact Hlt|]. rewrite Hur. exact Hix.
 Qed.
 
+(* the same for the run list as coded (Model.product_runs), under distinct keys *)
+Lemma product_runs_index_unique : forall ps ix,
+  NoDup (map p_key (enabled ps)) ->
+  Forall2 lt ix (map plen (enabled ps)) ->
+  exists r, In r (product_runs ps) /\ r_index r = ix /\
+            r_run_index r = rank (map plen (enabled ps)) ix /\
+            forall r', In r' (product_runs ps) -> r_index r' = ix -> r_run_index r' = r_run_index r.
+Proof.
+  intros ps ix Hk H. rewrite (product_runs_spec ps Hk). apply spec_product_index_unique. exact H.
+Qed.
+
 (* non-vacuity: a 2 x 3 space *)
 Example rank_unrank_2x3 :
   map (fun n => rank [2;3] (unrank [2;3] n)) (seq 0 6) = seq 0 6 /\ unrank [2;3] 4 = [1;1].
